@@ -323,7 +323,7 @@ theorem client_step_refines (op : Op) (c : Client) (q : PClient) (h : CSim c q) 
       · exact ⟨hs.2, rfl, rfl⟩
       · exact ⟨hs.2, rfl, rfl⟩
   | peek n =>
-    simp only [Client.step, PClient.step, h.eof, h.err, hs.1]
+    simp only [Client.step, PClient.step, h.eof, h.err, hs.1, BR.size, hs.2.cap]
     split
     · exact ⟨rfl, h⟩
     · exact ⟨rfl, hs.2, rfl, rfl⟩
